@@ -37,13 +37,13 @@ type rowT struct {
 }
 
 type stepT struct {
-	K    string `json:"k"`              // sel | sfu | msel | ins | upd | del | upd2 | insfrom | commit | rollback | b
+	K    string `json:"k"`              // sel | sfu | msel | ins | upd | del | upd2 | insfrom | commit | rollback | b | hold | release
 	T    int    `json:"t"`              // table index (0: t1, 1: t2)
 	Src  int    `json:"src,omitempty"`  // insfrom: source table
 	Form int    `json:"form,omitempty"` // spelling of the table reference (see tableRef)
 	ID   int    `json:"id,omitempty"`   // ins: new id; upd/del: addressed id
 	Null bool   `json:"null,omitempty"` // ins/upd: the value is NULL
-	BK   string `json:"bk,omitempty"`   // b: upd | ins | del | updall
+	BK   string `json:"bk,omitempty"`   // b: upd | ins | del | updall; hold: sfu | upd | ins; release: commit | rollback
 	J    string `json:"j,omitempty"`    // msel: comma | cross | inner | full | union | notin (T is the first table, the other one the second)
 	FU   bool   `json:"fu,omitempty"`   // msel: FOR UPDATE
 	ID2  int    `json:"id2,omitempty"`  // upd2: id addressed in the second table
@@ -72,8 +72,9 @@ type cacheT struct {
 }
 
 type model struct {
-	F [][]mrow  // contents of the files
-	C []*cacheT // A's cache per table
+	F  [][]mrow  // contents of the files
+	C  []*cacheT // A's cache per table
+	H2 []*cacheT // the copies a long-lived other transaction B2 holds for update (nil: not held by B2)
 }
 
 func newModel(tables [][]rowT) *model {
@@ -88,6 +89,7 @@ func newModel(tables [][]rowT) *model {
 		}
 		m.F = append(m.F, rows)
 		m.C = append(m.C, nil)
+		m.H2 = append(m.H2, nil)
 	}
 	return m
 }
@@ -150,6 +152,75 @@ func (m *model) updAccess(t int) string {
 }
 
 func (m *model) held(t int) bool { return m.C[t] != nil && m.C[t].fu }
+
+// blocked: A's access would have to go to the file (nothing cached, or an update access to a copy that is not
+// held) while another transaction holds the table's exclusive lock: "exclusive locks remain until the termination
+// of the transaction", readers use shared locks. The statement must fail with the lock wait timeout error and,
+// by the property, leave what A has loaded as it was.
+func (m *model) blocked(t int, fu bool) bool {
+	return m.H2[t] != nil && (m.C[t] == nil || (fu && !m.C[t].fu))
+}
+
+func (m *model) b2Alive() bool {
+	for _, h := range m.H2 {
+		if h != nil {
+			return true
+		}
+	}
+	return false
+}
+
+// b2Release ends B2: COMMIT writes its changed tables.
+func (m *model) b2Release(commit bool) (written []int) {
+	for t, h := range m.H2 {
+		if h != nil && commit && h.dirty {
+			m.F[t] = clone(h.rows)
+			written = append(written, t)
+		}
+		m.H2[t] = nil
+	}
+	return written
+}
+
+type acc struct {
+	t  int
+	fu bool
+}
+
+// accesses lists the tables a statement of A reaches and whether it needs them for update.
+func accesses(s stepT) []acc {
+	switch s.K {
+	case "sel":
+		return []acc{{s.T, false}}
+	case "sfu", "ins", "upd", "del":
+		return []acc{{s.T, true}}
+	case "msel":
+		return []acc{{s.T, s.FU}, {1 - s.T, s.FU}}
+	case "upd2":
+		return []acc{{s.T, true}, {1 - s.T, true}}
+	case "insfrom":
+		return []acc{{s.T, true}, {s.Src, false}}
+	}
+	return nil
+}
+
+func (m *model) anyBlocked(s stepT) bool {
+	for _, a := range accesses(s) {
+		if a.t >= 0 && a.t < len(m.C) && m.blocked(a.t, a.fu) {
+			return true
+		}
+	}
+	return false
+}
+
+func (m *model) anyForeign(s stepT) bool {
+	for _, a := range accesses(s) {
+		if a.t >= 0 && a.t < len(m.C) && m.H2[a.t] != nil {
+			return true
+		}
+	}
+	return false
+}
 
 func (m *model) commit() (wrote bool) {
 	for t, c := range m.C {
@@ -316,15 +387,24 @@ func countID(rows []mrow, id int) int {
 // ---------------------------------------------------------------------
 // generator (steered by the same pure model so that the interesting rules are frequent)
 
-var kinds = []string{"sel", "sfu", "dml", "insfrom", "commit", "rollback", "b", "msel", "upd2"}
+var kinds = []string{"sel", "sfu", "dml", "insfrom", "commit", "rollback", "b", "msel", "upd2", "hold", "release"}
+
+// A failed update access (lock wait timeout because another transaction holds the table) to a table A has cached
+// from a plain SELECT drops A's cached copy (cacheViewFromFile disposes the cached view before it tries to take the
+// lock), so A's next plain read re-reads the file. The main histories keep away from exactly that shape so that the
+// search goes on; the check "failed_update_access" generates it on purpose.
+const avoidFailedUpdateAccessOnCachedTable = false
 
 var joinForms = []string{"comma", "cross", "inner", "full", "union", "notin"}
 
-func genCase(t *rapid.T) histCase { return genHist(t, false) }
+func genCase(t *rapid.T) histCase { return genHist(t, false, false) }
 
-func genCaseProc(t *rapid.T) histCase { return genHist(t, true) }
+func genCaseProc(t *rapid.T) histCase { return genHist(t, true, false) }
 
-func genHist(t *rapid.T, bproc bool) histCase {
+func genCaseFailedUpdate(t *rapid.T) histCase { return genHist(t, false, true) }
+
+// genHist: aimShape makes "A's update access to a table it has cached read-only while B2 holds it" frequent.
+func genHist(t *rapid.T, bproc, aimShape bool) histCase {
 	c := histCase{BProc: bproc}
 	nt := 1
 	if fw.Pct(t, "two_tables", 50) {
@@ -365,14 +445,24 @@ func genHist(t *rapid.T, bproc bool) histCase {
 		var s stepT
 		allHeld, someHeld := true, false
 		for k := 0; k < nt; k++ {
-			if m.held(k) {
+			if m.held(k) || m.H2[k] != nil {
 				someHeld = true
 			} else {
 				allHeld = false
 			}
 		}
+		shapeT := -1 // a table A has cached from a plain SELECT and B2 holds
+		for k := 0; k < nt; k++ {
+			if m.H2[k] != nil && m.C[k] != nil && !m.C[k].fu {
+				shapeT = k
+			}
+		}
+		avoidShape := avoidFailedUpdateAccessOnCachedTable && !aimShape
 		kind := ""
-		if probe >= 0 && fw.Pct(t, "probe", 40) {
+		if shapeT >= 0 && !avoidShape && ((aimShape && fw.Pct(t, "shape", 70)) || (!aimShape && fw.Pct(t, "shape", 30))) {
+			kind = []string{"dml", "dml", "sfu"}[fw.Uniform(t, "shape_kind", 3)]
+			s.T = shapeT
+		} else if probe >= 0 && fw.Pct(t, "probe", 40) {
 			// does the second table of the multi-table FOR UPDATE keep other processes out? does A then change the held copy?
 			kind = []string{"b", "b", "dml"}[fw.Uniform(t, "probe_kind", 3)]
 			s.T = probe
@@ -398,16 +488,113 @@ func genHist(t *rapid.T, bproc bool) histCase {
 			if nt == 2 {
 				wms, wu2 = 14, 3
 			}
-			kind = kinds[fw.Weighted(t, "kind", []int{30, 6, 15, wins, 6, 5, wb, wms, wu2})]
+			whold, wrel := 6, 0
+			if aimShape {
+				whold = 16
+			}
+			if m.b2Alive() {
+				whold, wrel = 2, 14
+			}
+			kind = kinds[fw.Weighted(t, "kind", []int{30, 6, 15, wins, 6, 5, wb, wms, wu2, whold, wrel})]
 			s.T = fw.Uniform(t, "table", nt)
 			if kind == "b" && nt == 2 && someHeld && !allHeld && fw.Pct(t, "b_free_table", 75) {
-				if m.held(s.T) {
+				if m.held(s.T) || m.H2[s.T] != nil {
 					s.T = 1 - s.T
 				}
 			}
+			if kind == "hold" && nt == 2 && fw.Pct(t, "hold_cached", 60) {
+				// prefer a table A has cached from a plain SELECT
+				for k := 0; k < nt; k++ {
+					if m.C[k] != nil && !m.C[k].fu {
+						s.T = k
+					}
+				}
+			}
 		}
+		prevFollow := follow
 		follow, probe = -1, -1
+		// keep the expected lock wait timeouts (50 ms each) at a moderate share
+		if kind == "hold" && m.held(s.T) && fw.Pct(t, "hold_free", 85) {
+			if nt == 2 && !m.held(1-s.T) {
+				s.T = 1 - s.T
+			} else {
+				kind = "sel"
+			}
+		}
+		if (kind == "sel" || kind == "sfu" || kind == "dml") && m.C[s.T] == nil && m.H2[s.T] != nil && fw.Pct(t, "skip_blocked", 65) {
+			if nt == 2 && m.H2[1-s.T] == nil {
+				s.T = 1 - s.T
+			} else {
+				kind = "release"
+			}
+		}
+		// while another transaction B2 holds tables, A's multi-table statements are left out (a statement that gets one
+		// table and fails on the other has no determined effect on the first)
+		if (kind == "msel" || kind == "upd2" || kind == "insfrom") && m.b2Alive() {
+			kind = "sel"
+		}
+		if kind == "sel" || kind == "sfu" || kind == "dml" {
+			fu := kind != "sel"
+			if fu && avoidShape && m.blocked(s.T, true) && m.C[s.T] != nil {
+				kind, fu = "sel", false
+			}
+			if m.blocked(s.T, fu) {
+				// A's statement must fail with the lock wait timeout; nothing changes
+				switch kind {
+				case "sel":
+					s.K, s.Form = "sel", fw.Uniform(t, "form", 5)
+				case "sfu":
+					s.K, s.Form = "sfu", fw.Uniform(t, "form", 3)
+				default:
+					s.K = []string{"ins", "upd", "del"}[fw.Weighted(t, "dml", []int{35, 45, 20})]
+					s.Form = fw.Uniform(t, "form", 3)
+					if s.K == "ins" {
+						s.ID = nextID
+						nextID++
+					} else {
+						s.ID = aim("a_id", m.rowsAfter(s.T, false))
+					}
+				}
+				if fu && m.C[s.T] != nil {
+					follow = s.T // does A still see its snapshot?
+				} else {
+					follow = prevFollow
+				}
+				c.Steps = append(c.Steps, s)
+				continue
+			}
+		}
 		switch kind {
+		case "hold":
+			s.K = "hold"
+			s.BK = []string{"sfu", "upd", "ins"}[fw.Weighted(t, "hold_kind", []int{30, 45, 25})]
+			cur := m.F[s.T]
+			if m.H2[s.T] != nil {
+				cur = m.H2[s.T].rows
+			}
+			switch s.BK {
+			case "ins":
+				s.ID = nextID
+				nextID++
+			case "upd":
+				s.ID = aim("h_id", cur)
+			}
+			if !m.held(s.T) {
+				if m.H2[s.T] == nil {
+					m.H2[s.T] = &cacheT{rows: clone(m.F[s.T]), fu: true}
+				}
+				if s.BK != "sfu" {
+					m.H2[s.T].rows = edit(m.H2[s.T].rows, s.BK, s.ID, "z", false)
+					m.H2[s.T].dirty = true
+				}
+			}
+		case "release":
+			s = stepT{K: "release", BK: []string{"commit", "rollback"}[fw.Weighted(t, "release_kind", []int{65, 35})]}
+			for _, k := range m.b2Release(s.BK == "commit") {
+				if readInTxn[k] {
+					follow = k
+				}
+			}
 		case "msel":
 			s.K = "msel"
 			s.J = joinForms[fw.Weighted(t, "join", []int{20, 15, 15, 20, 15, 15})]
@@ -498,7 +685,7 @@ func genHist(t *rapid.T, bproc bool) histCase {
 			case "upd", "del":
 				s.ID = aim("b_id", m.F[s.T])
 			}
-			if !m.held(s.T) {
+			if !m.held(s.T) && m.H2[s.T] == nil {
 				m.F[s.T] = edit(m.F[s.T], s.BK, s.ID, "y", s.Null)
 				if readInTxn[s.T] {
 					follow = s.T
@@ -780,8 +967,32 @@ func checkHistLimit(c histCase, procLimit time.Duration) (fw.Outcome, *fw.Violat
 			toks = append(toks, s)
 		}
 	}
+	// B2: the long-lived other transaction (always an in-process session)
+	var b2 *run.Sess
+	defer func() {
+		if b2 != nil {
+			b2.Close()
+		}
+	}()
+	// While B2 holds a table the statement reaches, A waits 50 ms for locks: B2 keeps its locks for as long as A
+	// waits, so A either needs no lock (and succeeds at once) or times out whatever the limit is. A lock wait
+	// timeout where the model expects success is judged on a second attempt with 2 s.
+	foreign := false
+	setWaitA := func(d time.Duration) { a.Tx.UpdateWaitTimeout(d.Seconds(), time.Millisecond) }
 	execA := func(sql string) run.Res {
+		if foreign {
+			setWaitA(bWait)
+		}
 		r := a.Exec(sql)
+		if foreign {
+			if r.Err != nil && strings.HasPrefix(run.ErrClass(r.Err), "E8/") {
+				fw.AddExtra("a_success_retries", 1)
+				trace = append(trace, "A: "+sql+"   -> "+run.ErrClass(r.Err)+" "+r.Err.Error()+" (first attempt, 50 ms)")
+				setWaitA(2 * time.Second)
+				r = a.Exec(sql)
+			}
+			setWaitA(30 * time.Second)
+		}
 		line := "A: " + sql
 		if r.Err != nil {
 			line += "   -> " + run.ErrClass(r.Err) + " " + r.Err.Error()
@@ -813,6 +1024,7 @@ func checkHistLimit(c histCase, procLimit time.Duration) (fw.Outcome, *fw.Violat
 	prevSet := make([]bool, nt)    // A had the table cached in an earlier transaction and has not accessed it since
 	prev := make([][]mrow, nt)     // ... that cached copy
 	bUnloaded := make([]bool, nt)  // B committed to the table while A had it not loaded (but another one loaded)
+	failedUpd := make([]bool, nt)  // an update access of A to its read-only cached copy timed out in this transaction
 	noteRead := func(t int) {
 		if readInTxn[t] && bSinceRead[t] {
 			nontrivial = true
@@ -822,6 +1034,9 @@ func checkHistLimit(c histCase, procLimit time.Duration) (fw.Outcome, *fw.Violat
 	}
 	compare := func(t int, got run.Res, want []mrow, rule, stmt string) *fw.Violation {
 		if got.Err != nil {
+			if failedUpd[t] && (rule == "C" || rule == "S") {
+				return fw.V("cache_dropped_by_failed_update_access", "%s failed in transaction A (%s %v) although A has %s loaded: after A's update access to it timed out the table must still be served from A's copy %s%s", stmt, run.ErrClass(got.Err), got.Err, tableName(t), render(want), tail())
+			}
 			return fw.V("a_read_error", "%s failed in transaction A: %s %v%s", stmt, run.ErrClass(got.Err), got.Err, tail())
 		}
 		if len(got.Views) != 1 {
@@ -847,6 +1062,9 @@ func checkHistLimit(c histCase, procLimit time.Duration) (fw.Outcome, *fw.Violat
 		if prevSet[t] && (rule == "L" || rule == "U") {
 			sig = "read_after_commit_or_rollback_not_current_file"
 		}
+		if failedUpd[t] && (rule == "C" || rule == "S") {
+			sig = "cache_dropped_by_failed_update_access"
+		}
 		return fw.V(sig, "%s in transaction A returned %s; expected %s = %s (file now %s)%s", stmt, render(rows), render(want), ruleText[rule], render(m.F[t]), tail())
 	}
 
@@ -857,6 +1075,56 @@ func checkHistLimit(c histCase, procLimit time.Duration) (fw.Outcome, *fw.Violat
 		}
 		tn := strconv.Itoa(s.T + 1)
 		atag, btag := fmt.Sprintf("a%d", i), fmt.Sprintf("b%d", i)
+		foreign = m.anyForeign(s)
+		if m.anyBlocked(s) {
+			// another transaction holds a table this statement has to fetch from the file
+			var stmt string
+			switch s.K {
+			case "sel":
+				stmt = fmt.Sprintf("SELECT id, v FROM %s;", tableRef(dir, s.T, s.Form))
+			case "sfu":
+				stmt = fmt.Sprintf("SELECT id, v FROM %s FOR UPDATE;", tableRef(dir, s.T, s.Form%3))
+			case "ins", "upd", "del":
+				stmt = changeSQL(tableRef(dir, s.T, s.Form%3), s.K, s.ID, atag, s.Null)
+			default:
+				// a multi-table statement that gets one table and fails on the other: effect on the first not determined
+				o.Discard = true
+				return o, nil
+			}
+			setWaitA(bWait)
+			r := a.Exec(stmt)
+			cls := run.ErrClass(r.Err)
+			if r.Err != nil && cls != lockTO && strings.HasPrefix(cls, "E8/") {
+				fw.AddExtra("a_timeout_retries", 1)
+				setWaitA(2 * time.Second)
+				r = a.Exec(stmt)
+				cls = run.ErrClass(r.Err)
+			}
+			setWaitA(30 * time.Second)
+			if r.Err == nil {
+				trace = append(trace, "A: "+stmt+"   -> succeeded")
+				return o, fw.V("a_access_while_other_transaction_holds_table", "%s succeeded in transaction A while another transaction holds %s for update%s", stmt, tableName(s.T), tail())
+			}
+			trace = append(trace, "A: "+stmt+"   -> "+cls+" "+r.Err.Error())
+			if cls != lockTO {
+				return o, fw.V("a_blocked_wrong_error:"+cls, "%s failed with %s %v; the lock wait timeout error (%s) is expected while another transaction holds %s%s", stmt, cls, r.Err, lockTO, tableName(s.T), tail())
+			}
+			fw.AddExtra("a_lock_timeouts", 1)
+			state := "nothing_cached"
+			if m.C[s.T] != nil {
+				state = "cached_read_only"
+				if s.K != "sel" {
+					failedUpd[s.T] = true
+				}
+			}
+			kindName := s.K
+			if s.K == "ins" || s.K == "upd" || s.K == "del" {
+				kindName = "change"
+			}
+			class("A.blocked:" + kindName + ":" + state)
+			tok("x" + s.K[:1] + state[:1] + tn)
+			continue
+		}
 		switch s.K {
 		case "sel":
 			stmt := fmt.Sprintf("SELECT id, v FROM %s;", tableRef(dir, s.T, s.Form))
@@ -888,6 +1156,7 @@ func checkHistLimit(c histCase, procLimit time.Duration) (fw.Outcome, *fw.Violat
 				return o, v
 			}
 			class("A.select_for_update:" + rule)
+			failedUpd[s.T] = false
 			if rule == "U" && prevSet[s.T] && !sameRows(prev[s.T], want) {
 				class("A.select_for_update:after_end_sees_current_file_not_old_cache")
 			}
@@ -967,7 +1236,13 @@ func checkHistLimit(c histCase, procLimit time.Duration) (fw.Outcome, *fw.Violat
 				sort.Strings(got)
 			}
 			if strings.Join(got, "\n") != strings.Join(want, "\n") {
-				return o, fw.V("multi_table_read:"+mode+":"+rules[0]+"/"+rules[1], "%s in transaction A returned %s; expected %s from %s = %s (%s) and %s = %s (%s); files now %s, %s%s",
+				sig := "multi_table_read:" + mode + ":" + rules[0] + "/" + rules[1]
+				for k, tb := range []int{l, r} {
+					if failedUpd[tb] && (rules[k] == "C" || rules[k] == "S") {
+						sig = "cache_dropped_by_failed_update_access"
+					}
+				}
+				return o, fw.V(sig, "%s in transaction A returned %s; expected %s from %s = %s (%s) and %s = %s (%s); files now %s, %s%s",
 					stmt, showKeys(got), showKeys(want), tableName(l), render(m.C[l].rows), ruleText[rules[0]], tableName(r), render(m.C[r].rows), ruleText[rules[1]], render(m.F[l]), render(m.F[r]), tail())
 			}
 			class("A.multi_select:" + s.J + ":" + mode)
@@ -1020,6 +1295,7 @@ func checkHistLimit(c histCase, procLimit time.Duration) (fw.Outcome, *fw.Violat
 			cch.rows = edit(cch.rows, s.K, s.ID, atag, s.Null)
 			cch.dirty = true
 			class("A." + s.K + ":" + rule)
+			failedUpd[s.T] = false
 			prevSet[s.T], bUnloaded[s.T] = false, false
 			tok("d" + rule + tn)
 
@@ -1045,8 +1321,9 @@ func checkHistLimit(c histCase, procLimit time.Duration) (fw.Outcome, *fw.Violat
 				if m.C[t] != nil {
 					prevSet[t], prev[t] = true, clone(m.C[t].rows)
 				}
-				readInTxn[t], bSinceRead[t], bUnloaded[t] = false, false, false
+				readInTxn[t], bSinceRead[t], bUnloaded[t], failedUpd[t] = false, false, false, false
 			}
+			foreign = false
 			before := readFiles(dir, nt)
 			var flag bool
 			if s.K == "commit" {
@@ -1081,7 +1358,11 @@ func checkHistLimit(c histCase, procLimit time.Duration) (fw.Outcome, *fw.Violat
 		case "b":
 			sql := changeSQL(tableName(s.T), s.BK, s.ID, btag, s.Null) + " COMMIT;"
 			before := readFiles(dir, nt)
-			mustFail := m.held(s.T)
+			mustFail := m.held(s.T) || m.H2[s.T] != nil
+			holder := "transaction A holds"
+			if m.H2[s.T] != nil {
+				holder = "another transaction holds"
+			}
 			out := runB(c, dir, sql, bWait, procLimit)
 			retried := false
 			if out.class == "harness" {
@@ -1116,7 +1397,7 @@ func checkHistLimit(c histCase, procLimit time.Duration) (fw.Outcome, *fw.Violat
 			if mustFail {
 				fw.AddExtra("b_lock_timeouts", 1)
 				if out.class == "" {
-					return o, fw.V("b_committed_while_held_for_update", "another process changed and committed %s while transaction A holds it for update%s", tableName(s.T), tail())
+					return o, fw.V("b_committed_while_held_for_update", "another process changed and committed %s while %s it for update%s", tableName(s.T), holder, tail())
 				}
 				if out.class != lockTO {
 					return o, fw.V("b_blocked_wrong_error:"+out.class, "process B failed with %s %s; the lock wait timeout error (%s) is expected while A holds %s for update%s", out.class, out.msg, lockTO, tableName(s.T), tail())
@@ -1130,7 +1411,7 @@ func checkHistLimit(c histCase, procLimit time.Duration) (fw.Outcome, *fw.Violat
 			}
 			if out.class != "" {
 				sig := "b_failed_without_holder:" + out.class
-				return o, fw.V(sig, "process B failed with %s %s although transaction A does not hold %s for update%s", out.class, out.msg, tableName(s.T), tail())
+				return o, fw.V(sig, "process B failed with %s %s although nobody holds %s for update%s", out.class, out.msg, tableName(s.T), tail())
 			}
 			m.F[s.T] = edit(m.F[s.T], s.BK, s.ID, btag, s.Null)
 			switch {
@@ -1147,12 +1428,130 @@ func checkHistLimit(c histCase, procLimit time.Duration) (fw.Outcome, *fw.Violat
 			}
 			tok("b" + tn)
 
+		case "hold":
+			htag := fmt.Sprintf("h%d", i)
+			var sql string
+			switch s.BK {
+			case "sfu":
+				sql = fmt.Sprintf("SELECT id, v FROM %s FOR UPDATE;", tableName(s.T))
+			case "upd", "ins":
+				sql = changeSQL(tableName(s.T), s.BK, s.ID, htag, false)
+			default:
+				o.Discard = true
+				return o, nil
+			}
+			created := false
+			if b2 == nil {
+				var err error
+				if b2, err = run.NewSess(run.Opt{Dir: dir, WaitTimeout: bWait}); err != nil {
+					b2 = nil
+					return o, fw.Harness("session: %v", err)
+				}
+				created = true
+			}
+			mustFail := m.held(s.T)
+			r := b2.Exec(sql)
+			cls := run.ErrClass(r.Err)
+			if r.Err != nil && strings.HasPrefix(cls, "E8/") && (!mustFail || cls != lockTO) {
+				// nobody holds the table / the 50 ms were over before the first attempt: judge a patient attempt
+				fw.AddExtra("b_success_retries", 1)
+				wait := bWaitRetry
+				if mustFail {
+					wait = 2 * time.Second
+				}
+				b2.Tx.UpdateWaitTimeout(wait.Seconds(), time.Millisecond)
+				r = b2.Exec(sql)
+				cls = run.ErrClass(r.Err)
+				b2.Tx.UpdateWaitTimeout(bWait.Seconds(), time.Millisecond)
+			}
+			line := "B2: " + sql
+			if r.Err != nil {
+				line += "   -> " + cls + " " + r.Err.Error()
+			} else {
+				line += "   -> ok, transaction stays open"
+			}
+			trace = append(trace, line)
+			if mustFail {
+				fw.AddExtra("b_lock_timeouts", 1)
+				if r.Err == nil {
+					return o, fw.V("b_access_while_held_for_update", "another transaction obtained %s for update while transaction A holds it for update%s", tableName(s.T), tail())
+				}
+				if cls != lockTO {
+					return o, fw.V("b_blocked_wrong_error:"+cls, "transaction B2 failed with %s %v; the lock wait timeout error (%s) is expected while A holds %s for update%s", cls, r.Err, lockTO, tableName(s.T), tail())
+				}
+				if created {
+					b2.Close()
+					b2 = nil
+				}
+				class("B2.blocked:" + s.BK)
+				tok("hX" + tn)
+				break
+			}
+			if r.Err != nil {
+				return o, fw.V("b_failed_without_holder:"+cls, "transaction B2 failed with %s %v although transaction A does not hold %s for update%s", cls, r.Err, tableName(s.T), tail())
+			}
+			if m.H2[s.T] == nil {
+				m.H2[s.T] = &cacheT{rows: clone(m.F[s.T]), fu: true}
+			}
+			if s.BK != "sfu" {
+				m.H2[s.T].rows = edit(m.H2[s.T].rows, s.BK, s.ID, htag, false)
+				m.H2[s.T].dirty = true
+			}
+			if m.C[s.T] != nil {
+				class("B2.hold:table_cached_read_only_by_A")
+			} else {
+				class("B2.hold:table_not_loaded_by_A")
+			}
+			tok("h" + tn)
+
+		case "release":
+			if b2 == nil {
+				class("B2.release:nothing_open")
+				break
+			}
+			commit := s.BK != "rollback"
+			sql := "ROLLBACK;"
+			if commit {
+				sql = "COMMIT;"
+			}
+			r := b2.Exec(sql)
+			if r.Err != nil {
+				trace = append(trace, "B2: "+sql+"   -> "+run.ErrClass(r.Err)+" "+r.Err.Error())
+				return o, fw.V("b_release_error", "%s of transaction B2 failed: %v%s", sql, r.Err, tail())
+			}
+			trace = append(trace, "B2: "+sql+"   -> ok, transaction ended")
+			b2.Close()
+			b2 = nil
+			written := m.b2Release(commit)
+			for _, t := range written {
+				if readInTxn[t] {
+					bSinceRead[t] = true
+				}
+			}
+			switch {
+			case len(written) > 0:
+				class("B2.release:commit_writes")
+				tok("rW")
+			case commit:
+				class("B2.release:commit_nothing_to_write")
+				tok("rC")
+			default:
+				class("B2.release:rollback")
+				tok("rR")
+			}
+
 		default:
 			o.Discard = true
 			return o, nil
 		}
 	}
 
+	// the end: B2 and A end without COMMIT (pending changes are discarded); the files are the model's files
+	if b2 != nil {
+		b2.Close()
+		b2 = nil
+	}
+	m.b2Release(false)
 	// the end: A ends without COMMIT (its pending changes are discarded); the files are the model's files
 	a.Close()
 	m.rollback()
@@ -1192,7 +1591,7 @@ var assumptions = []string{
 
 func TestC20History(t *testing.T) {
 	fw.Run(t, fw.Spec[histCase]{
-		ID: "C20", Name: "history", Quick: 4800, Thorough: 96000,
+		ID: "C20", Name: "history", Quick: 4000, Thorough: 80000,
 		Gen: genCase, Check: checkHist, Rule: ruleDoc, Assumptions: assumptions,
 	})
 }
@@ -1202,6 +1601,15 @@ func TestC20HistoryProcesses(t *testing.T) {
 		ID: "C20", Name: "history_processes", Quick: 96, Thorough: 1920,
 		Gen: genCaseProc, Check: checkHist,
 		Rule:        "the same histories with every B step executed by a real csvq process (csvq --wait-timeout 0.05 -q '<change>; COMMIT;' in the table directory): exit 0 iff A does not hold the table, otherwise exit code 8 with the lock wait timeout message and unchanged files",
+		Assumptions: assumptions,
+	})
+}
+
+func TestC20FailedUpdateAccess(t *testing.T) {
+	fw.Run(t, fw.Spec[histCase]{
+		ID: "C20", Name: "failed_update_access", Quick: 320, Thorough: 6400,
+		Gen: genCaseFailedUpdate, Check: checkHist,
+		Rule:        "the same histories aimed at one shape: A has a table cached from a plain SELECT, a long-lived other transaction B2 holds it for update (SELECT FOR UPDATE / UPDATE / INSERT, later COMMIT or ROLLBACK), A's data-changing or FOR UPDATE access to it fails with the lock wait timeout; afterwards A's plain reads must still return A's snapshot (while B2 holds the table and after B2 committed)",
 		Assumptions: assumptions,
 	})
 }
